@@ -362,6 +362,78 @@ pub fn run(thorough: bool) -> Report {
             merge(&total, acc);
         });
     }
+    // Empty statements (a colon with nothing before or after it) are statements of their line:
+    // a visit that executes nothing else is still a visit. Expected line sequences by hand.
+    {
+        let cases: Vec<(Vec<&str>, Vec<u64>, Vec<(&str, u64)>)> = vec![
+            (vec!["10 PRINT 1", "20 :", "30 ::", "40 PRINT 2"], vec![10, 20, 30, 40], vec![]),
+            (vec!["10 GOSUB 100:", "20 END", "100 RETURN"], vec![10, 100, 10, 20], vec![]),
+            (vec!["10 FOR I=1 TO 2:", "20 NEXT I"], vec![10, 20, 10, 20], vec![]),
+            (vec!["10 : PRINT Q", "20 :: GOTO 40", "30 PRINT 3", "40 :"], vec![10, 20, 40], vec![("Use of undeclared variable 'Q'.", 10)]),
+            // the same variable read twice in one statement, and once per iteration of a loop
+            (vec!["10 PRINT Q + Q"], vec![10], vec![("Use of undeclared variable 'Q'.", 10), ("Use of undeclared variable 'Q'.", 10)]),
+            (vec!["10 FOR I=1 TO 3", "20 Y = Q", "30 NEXT I"], vec![10, 20, 30, 20, 30, 20, 30], vec![("Use of undeclared variable 'Q'.", 20), ("Use of undeclared variable 'Q'.", 20), ("Use of undeclared variable 'Q'.", 20)]),
+        ];
+        let mut acc = Acc::default();
+        for (lines, want_trace, want_warn) in cases {
+            let lines: Vec<String> = lines.iter().map(|l| l.to_string()).collect();
+            check_program(&lines, &[], None, "program with empty statements", &mut acc);
+            // all records taken at the end of the run (a host need not collect after every call)
+            for lazy in [false, true] {
+                let mut s = Sess::new();
+                s.it.enable_warnings = true;
+                s.it.enable_tracing = true;
+                for l in &lines {
+                    let _ = s.apply(&Ev::Line(l.clone()));
+                }
+                s.recs.clear();
+                let (traces, warns): (Vec<u64>, Vec<(String, Option<u64>)>) = if lazy {
+                    // drive the interpreter directly, taking output only once
+                    let mut outs = vec![];
+                    let r = guarded(|| {
+                        let _ = s.it.start_evaluating("RUN");
+                        let mut n = 0;
+                        while s.it.get_state() == abasic_core::InterpreterState::Running && n < 200 {
+                            let _ = s.it.continue_evaluating();
+                            n += 1;
+                        }
+                        s.it.take_output()
+                    });
+                    if let Ok(o) = r {
+                        outs = o;
+                    }
+                    let mut t = vec![];
+                    let mut w = vec![];
+                    for o in outs {
+                        match o {
+                            abasic_core::InterpreterOutput::Trace(l) => t.push(l),
+                            abasic_core::InterpreterOutput::Warning(m, l) => w.push((m, l)),
+                            _ => {}
+                        }
+                    }
+                    (t, w)
+                } else {
+                    let mut none = std::iter::empty();
+                    let _ = s.run_line("RUN", &mut none, 200);
+                    (
+                        s.recs.iter().filter_map(|r| if let Rec::Trace(l) = r { Some(*l) } else { None }).collect(),
+                        s.recs.iter().filter_map(|r| if let Rec::Warning(m, l) = r { Some((m.clone(), *l)) } else { None }).collect(),
+                    )
+                };
+                let got = collapse(&traces);
+                let ww: Vec<(String, Option<u64>)> = want_warn.iter().map(|(m, l)| (m.to_string(), Some(*l))).collect();
+                let how = if lazy { "output collected once at the end" } else { "output collected after every call" };
+                if got != want_trace {
+                    acc.violating += 1;
+                    acc.viol.push(Violation { signature: format!("trace does not name the lines execution passes through [{:?}, {}]", lines, how), detail: format!("{:?}: trace (collapsed) {:?}, expected {:?}", lines, got, want_trace), case: json!({"kind":"program","lines":lines,"replies":[],"seed":"1","warnings":true,"tracing":true}) });
+                } else if warns != ww {
+                    acc.violating += 1;
+                    acc.viol.push(Violation { signature: format!("warnings differ from the expected ones [{:?}, {}]", lines, how), detail: format!("{:?}: warnings {:?}, expected {:?}", lines, warns, ww), case: json!({"kind":"program","lines":lines,"replies":[],"seed":"1","warnings":true,"tracing":true}) });
+                }
+            }
+        }
+        merge(&total, acc);
+    }
     let acc = total.into_inner().unwrap();
     if acc.with_warnings == 0 || acc.trace_compared == 0 {
         machinery("vacuous: no program produced warnings / no trace was compared");
